@@ -483,3 +483,205 @@ def rp_claims(mname):
             m = query.Term("t", u"alfa").matcher(s_)
             return "%s scorer claims quality support; max_quality %r, first score %r" % (mname, sc.max_quality(), sc.score(m))
         return None
+
+
+# ------------------------------------------------------------------ E3: the real composite matcher classes over leaves whose scores and bounds are z3 reals
+from whoosh.matching import mcore as _mcore
+from whoosh.matching import binary as _binary
+from whoosh.matching import wrappers as _wrappers
+
+
+class _RealLeaf(_mcore.Matcher):
+    """a posting list with concrete ids whose scores and quality bounds are solver terms; every entry is its own block (the most
+    hostile layout the leaf contract allows): block_quality() is only known to bound the *current* entry, max_quality() every entry"""
+    def __init__(self, name, ids, i=0):
+        self.name, self.ids, self.i = name, list(ids), i
+        self.s = [z3.Real("%s_s%d" % (name, k)) for k in range(len(ids))]
+        self.bq = [z3.Real("%s_bq%d" % (name, k)) for k in range(len(ids))]
+        self.mq = z3.Real("%s_mq" % name)
+
+    def contract(self):
+        cs = []
+        for k in range(len(self.ids)):
+            cs += [self.s[k] > 0, self.bq[k] >= self.s[k], self.mq >= self.bq[k]]
+        return cs
+
+    def is_active(self):
+        return self.i < len(self.ids)
+
+    def reset(self):
+        self.i = 0
+
+    def copy(self):
+        c = _RealLeaf(self.name, self.ids, self.i)
+        return c
+
+    def id(self):
+        return self.ids[self.i]
+
+    def next(self):
+        self.i += 1
+
+    def skip_to(self, t):
+        while self.i < len(self.ids) and self.ids[self.i] < t:
+            self.i += 1
+
+    def value(self):
+        return b""
+
+    def supports(self, astype):
+        return False
+
+    def value_as(self, astype):
+        raise NotImplementedError
+
+    def weight(self):
+        return self.s[self.i]
+
+    def score(self):
+        return self.s[self.i]
+
+    def supports_block_quality(self):
+        return True
+
+    def block_quality(self):
+        if self.i >= len(self.ids):
+            # asked on an exhausted list (DisjunctionMax does): real leaves answer with whatever their last block said - any value
+            return z3.Real("%s_stale" % self.name) if not isinstance(self.mq, float) else 0.0
+        return self.bq[self.i]
+
+    def max_quality(self):
+        return self.mq
+
+
+def _zmax(*xs):
+    if len(xs) == 1:
+        xs = tuple(xs[0])
+    out = xs[0]
+    for x in xs[1:]:
+        if isinstance(out, z3.ExprRef) or isinstance(x, z3.ExprRef):
+            out = z3.If(out >= x, out, x)
+        else:
+            out = out if out >= x else x
+    return out
+
+
+def _z0(x):
+    return 0 if x is None else x
+
+
+_IDP = [[], [0], [1], [0, 1], [0, 2], [1, 2], [1, 3], [0, 1, 2]]
+_KINDS = [
+    ("Union", lambda a, b: _binary.UnionMatcher(a, b), lambda sa, sb: _z0(sa) + _z0(sb) if (sa is not None or sb is not None) else None),
+    ("DisjunctionMax", lambda a, b: _binary.DisjunctionMaxMatcher(a, b),
+     lambda sa, sb: None if sa is None and sb is None else sa if sb is None else sb if sa is None else z3.If(sa >= sb, sa, sb)),
+    ("Intersection", lambda a, b: _binary.IntersectionMatcher(a, b), lambda sa, sb: sa + sb if sa is not None and sb is not None else None),
+    ("Require", lambda a, b: _wrappers.RequireMatcher(a, b), lambda sa, sb: sa if sa is not None and sb is not None else None),
+    ("AndNot", lambda a, b: _binary.AndNotMatcher(a, b), lambda sa, sb: sa if sa is not None and sb is None else None),
+    ("AndMaybe", lambda a, b: _binary.AndMaybeMatcher(a, b), lambda sa, sb: None if sa is None else (sa + sb if sb is not None else sa)),
+    ("Wrapping(boost 3)", lambda a, b: _wrappers.WrappingMatcher(_binary.UnionMatcher(a, b), boost=3.0),
+     lambda sa, sb: (_z0(sa) + _z0(sb)) * 3.0 if (sa is not None or sb is not None) else None),
+]
+
+
+def rp_compose(kind, pa, pb):
+    """concrete replay: the same construction with float scores 1.0, 2.0, ... and tight bounds"""
+    return _compose_check(kind, pa, pb, concrete=True)
+
+
+def _compose_check(ki, pa, pb, concrete=False, rep=None, nocontract=False):
+    name, mk, comb = _KINDS[ki]
+    a, b = _RealLeaf("a", _IDP[pa]), _RealLeaf("b", _IDP[pb])
+    if concrete:
+        for leaf, base in ((a, 1.0), (b, 1.5)):
+            leaf.s = [base + k for k in range(len(leaf.ids))]
+            leaf.bq = list(leaf.s)
+            leaf.mq = max(leaf.s) if leaf.s else 0.0
+    contract = [] if (concrete or nocontract) else a.contract() + b.contract()
+    model = []
+    for d in sorted(set(a.ids) | set(b.ids)):
+        sa = a.s[a.ids.index(d)] if d in a.ids else None
+        sb = b.s[b.ids.index(d)] if d in b.ids else None
+        e = comb(sa, sb)
+        if e is not None:
+            model.append((d, e))
+    saved = _binary.__dict__.get("max", None)
+    _binary.max = _zmax
+    try:
+        m = mk(a, b)
+        i = 0
+        n = 0
+        while m.is_active():
+            if i >= len(model) or m.id() != model[i][0]:
+                return "%s over a=%r b=%r: entry %d is document %r, the model list is %r" % (name, a.ids, b.ids, i, m.id(), [d for d, _ in model])
+            sc = m.score()
+            obligations = [("score() is the documented composition", sc != model[i][1])]
+            if m.supports_block_quality():
+                obligations.append(("block_quality() >= score()", m.block_quality() < sc))
+                mq = m.max_quality()
+                for d2, e2 in model[i:]:
+                    obligations.append(("max_quality() >= score of remaining document %d" % d2, mq < e2))
+            for oname, neg in obligations:
+                n += 1
+                if concrete:
+                    if bool(neg):
+                        return "%s over a=%r b=%r at document %r: %s fails" % (name, a.ids, b.ids, m.id(), oname)
+                    continue
+                s = z3.Solver()
+                s.set("timeout", 20000)
+                s.add(*contract)
+                s.add(neg)
+                r = s.check()
+                if rep is not None:
+                    rep.queries += 1
+                if r == z3.sat:
+                    return "SAT %s over a=%r b=%r at document %r: %s fails for %s" % (name, a.ids, b.ids, m.id(), oname, s.model())
+                if r != z3.unsat:
+                    return "UNKNOWN %s over a=%r b=%r at document %r: %s" % (name, a.ids, b.ids, m.id(), oname)
+            m.next()
+            i += 1
+        if i != len(model):
+            return "%s over a=%r b=%r: the matcher ends after %d entries, the model list is %r" % (name, a.ids, b.ids, i, [d for d, _ in model])
+    finally:
+        if saved is None:
+            del _binary.max
+        else:
+            _binary.max = saved
+    return None
+
+
+@smtq(bounds="7 composite matcher classes x all pairs of 8 id patterns (<=3 ids each), every entry reached by stepping; leaf scores and bounds are z3 reals constrained "
+             "only by the leaf contract (score>0, block bound >= current score, max bound >= every block bound; every entry its own block)",
+      funcs=["whoosh.matching.binary.UnionMatcher", "whoosh.matching.binary.DisjunctionMaxMatcher", "whoosh.matching.binary.IntersectionMatcher",
+             "whoosh.matching.wrappers.RequireMatcher", "whoosh.matching.binary.AndNotMatcher", "whoosh.matching.binary.AndMaybeMatcher",
+             "whoosh.matching.wrappers.WrappingMatcher", "whoosh.matching.binary.AdditiveBiMatcher.block_quality", "whoosh.matching.binary.AdditiveBiMatcher.max_quality"],
+      outside="skip_to_quality/replace with a symbolic threshold (their branches compare solver terms; decided with threshold codes on real segments by c12_bounds_*), float rounding",
+      stubs=["leaves: a Matcher subclass with concrete ids and z3-real score/block_quality/max_quality", "builtin max inside whoosh.matching.binary -> z3 If (DisjunctionMax)"])
+def c12_compose_bounds(rep):
+    bad = 0
+    n = 0
+    for ki in range(len(_KINDS)):
+        for pa in range(len(_IDP)):
+            for pb in range(len(_IDP)):
+                try:
+                    r = _compose_check(ki, pa, pb, rep=rep)
+                except Exception as e:  # noqa
+                    r = "UNKNOWN %s over patterns %d,%d: raised %s: %s" % (_KINDS[ki][0], pa, pb, type(e).__name__, e)
+                n += 1
+                if r is None:
+                    continue
+                bad += 1
+                if r.startswith("UNKNOWN"):
+                    rep.inconclusive("compose bounds", r)
+                else:
+                    rep.violation("compose bounds", "rp_compose(%d, %d, %d)" % (ki, pa, pb), r[:300])
+                if bad > 5:
+                    return
+    # vacuity guard: without the leaf contract the bound obligations must be refutable
+    g = _compose_check(0, 3, 4, rep=rep, nocontract=True)
+    if not (g or "").startswith("SAT"):
+        rep.inconclusive("compose bounds vacuity guard", "expected a counterexample without the leaf contract, got %r" % (g,))
+        bad += 1
+    if not bad:
+        rep.held("score = documented composition, block_quality >= score, max_quality >= remaining scores: %d (class, id pattern pair) constructions" % n)
+    rep.sample({"classes": [k[0] for k in _KINDS], "constructions": n})
